@@ -16,6 +16,7 @@
 from __future__ import annotations
 
 import asyncio
+import os
 import pathlib
 from asyncio.log import logger
 from collections.abc import AsyncIterable
@@ -195,8 +196,12 @@ class Controller(AbstractController):
             path.parent.mkdir(parents=True, exist_ok=True)
 
         try:
-            with open(filename, mode="w", encoding="utf-8") as output_fp:
+            # Write to a temporary file next to the target and move it into place so an
+            # interrupted save can never leave a truncated or partial pairing file behind.
+            temp_filename = f"{filename}.tmp"
+            with open(temp_filename, mode="w", encoding="utf-8") as output_fp:
                 output_fp.write(hkjson.dumps_indented(data))
+            os.replace(temp_filename, filename)
         except PermissionError:
             raise ConfigSavingError(f'Could not write "{filename}" due to missing permissions')
         except FileNotFoundError:
